@@ -575,6 +575,20 @@ fn special_cases(quick: bool, deep: bool, out: &mut JobOut) {
                 variants.push(("MIN-to-MAX".into(), top.clone(), true));
                 top.reverse();
                 variants.push(("MAX-to-MIN".into(), top, false));
+                // unit steps at the top of the type and a third of the way up (beyond 2^53 for the
+                // 64-bit types, where neighbouring integers are not distinct as f64)
+                for (bname, base) in [("MAX-n", <$t>::MAX - (n as $t)), ("MAX/3", <$t>::MAX / 3)] {
+                    let inc_b: Vec<$t> = (0..n).map(|i| base + i as $t).collect();
+                    variants.push((format!("{bname}+i"), inc_b.clone(), true));
+                    for p in 0..n - 1 {
+                        let mut t = inc_b.clone();
+                        t[p + 1] = t[p];
+                        variants.push((format!("{bname}+i:tie@{p}"), t, false));
+                        let mut d = inc_b.clone();
+                        d.swap(p, p + 1);
+                        variants.push((format!("{bname}+i:swap@{p}"), d, false));
+                    }
+                }
                 for (name, x, ok) in variants {
                     let want: &[&'static str] = if ok { &[] } else { &["Monotonic"] };
                     let xa = Array1::from(x.clone());
